@@ -20,7 +20,8 @@ import re
 from vlib import Undecided, edge_cover, read_ndjson, parse_action
 from tlagen import gen_mc
 
-CUSTOMS = ["RFC3339NanoOrig", "RFC1123Z", "Kitchen", "StampMicro", "SpaceNano", "TimeNoNano", "RFC1123"]
+CUSTOMS = ["RFC3339NanoOrig", "RFC1123Z", "Kitchen", "StampMicro", "SpaceNano", "TimeNoNano", "RFC1123",
+           "TabMicro", "QuoteHMS", "BackslashDate"]
 BOOL_LISTS = [[], [True], [False], [True, False], [False, True], [False, True, False]]
 LAY_LISTS = [[], [""], ["RFC1123Z"], ["Kitchen"], ["StampMicro"], ["SpaceNano"], ["TimeNoNano"],
              ["RFC3339NanoOrig"], ["Kitchen", "RFC1123Z"], ["RFC1123Z", ""], ["", "Kitchen"],
@@ -410,7 +411,8 @@ def run(ctx, replay):
     ctx.assumptions += [
         "layout strings are interpreted by Go's package time (Format/Parse are trusted); the layout ids of the "
         "specification are bound to the documented layout strings written out in harness/fam_timestamp.go",
-        "custom layouts in the list contain no '\"', '\\\\' or '|' (the library does not escape the formatted time)",
+        "custom layouts in the list include ones whose literal text needs escaping in a JSON / logfmt string (a tab, a "
+        "double quote, backslashes); none contains '|', the separator of the coloured line",
         "instants are sampled (years 1..9999 in both the own zone and UTC, fixed offsets within +-14 h with and "
         "without seconds, 18 named zones from the embedded tzdata, time.UTC, time.Local)",
         "zone offsets are compared to the minute (all layouts print hours and minutes of the offset)",
